@@ -9,7 +9,7 @@ EXPLANATION = (
     "coroutines, which themselves await only latched single-shot mpsc sends (flag false-guarded, set before sending, resets accompanied by a "
     "permanent co-guard, capacity>=1); no second lock, no RPC/sleep/output while the guard is live; (L2) Rpc/ClnDatastore/PayPaymentProvider have no "
     "lock/channel/connection field and every ClnRpc method opens its own connection; other guards in handler scope are never held across an await; "
-    "(K) table and datastore keys are the invoice hash (C01-K), no global mutable state; (T) one spawned lifecycle per entry (C05-A3). Scheduler "
+    "(K) table and datastore keys are the invoice hash (C01-K), no global mutable state; (T) one spawned lifecycle per entry (C05-A3); (S) a hash reads the record under its own state key (C08-W4); (D) every hook call runs in its own spawned task, never awaited by the reader (C17-R2). Scheduler "
     "and node-RPC fairness are not decided."
 )
 ASSUMPTIONS = ["tokio runtime schedules ready tasks", "cln_rpc::ClnRpc::new opens an independent unix-socket connection"]
@@ -28,3 +28,9 @@ def run(F, X, rep):
     S.w5_no_deletion_and_keys(C, rep, "C14-K")
     H.k_no_global_state(C, rep, "C14-K")
     R.a3_one_lifecycle_per_entry(C, rep, "C14-T")
+    # "stored state is never pooled across hashes": what a hash reads back is the record under ITS OWN state key (C08-W4, cited)
+    S.w4_fetch_mapping(C, rep, "C14-S")
+    # "a stalled payment does not delay the responses for HTLCs of a different hash": the hook call of every HTLC runs in its own spawned
+    # task - the reader does nothing but read and spawn, it never awaits a handler (C17-R2, cited)
+    import p_c17
+    p_c17.r2(F, X, rep, "C14-D")
